@@ -1,33 +1,574 @@
-import ZipVerif.Props.C12
+import ZipVerif.Lemmas.FaultRun
+import ZipVerif.Lemmas.FaultReader
+import ZipVerif.Lemmas.FaultAppend
+import ZipVerif.Lemmas.MRun
 import ZipVerif.Props.C05
+import ZipVerif.Props.C12
 /-
 C11 — I/O failures surface as errors, never as panics or wrong results.
 
-First layer (this file, until the fault-transparency development `Lemmas/Fault*.lean` is merged): the
-"never a panic, then or on any later call" half, for EVERY injected fault index, as corollaries of the
-two totality theorems that were proved for every fault index from the start (`Props.C12.writer_no_panic`,
-`Props.C05.reader_total`), plus the elementary facts about how the model reports a failing call.
+Property theorems only.  The fault model is that of `Model/IO.lean`: every model function runs in
+`M α = Option Nat → Dev → Out α × Dev`; with `some k` the I/O call with index `k` (reads, writes,
+flushes, seeks are counted in `Dev.calls`) fails with `Err(io::Error)` (`.io .injected`), every other
+call behaves normally; `none` is the failure-free run.  All theorems quantify over EVERY `k`, every
+device, every writer state / archive value.
+
+Helper files: `Lemmas/FaultCore.lean` (`Fired`, `Uniform`, `Clean`/`Tight`, `ErrOnFire`, `EP`/`StepOK`,
+the tactic `fault`), `Lemmas/FaultWriter.lean` (every writer function), `Lemmas/FaultReader.lean`
+(every seekable-reader function, `new_append`, the probe seek), `Lemmas/FaultRun.lean` (call
+sequences), `Lemmas/FaultAppend.lean` (`new_append` establishes the writer invariant).
+
+A. no panic under any fault, then or later            — `*_no_panic_under_fault`
+B. a fault that is not reached changes nothing          — `*_unreached_fault`
+C. a fault that fires inside a call is that call's error — `fired_fault_is_error*`, with the two
+   places where the crate deliberately ignores a failure made explicit (`Drop`: the discarded result
+   of the implicit `finalize` and the ignored write of a live encoder's destructor; the last seek of
+   `new_append`).  The third one found by this development — the ZIP64 probe seek of
+   `ZipArchive::new`, whose failure was taken for "no ZIP64 records" — was a defect (D18) and is
+   repaired: `probe_injected_fault_reported`; what is still tolerated there is exactly the refused seek
+   to a negative position on a file too short to hold a locator (`probe_negative_seek_tolerated`).
+D. headline: `all_ok_is_faultfree`, `fault_outcome_dichotomy` (writer), `open_ok_is_faultfree`,
+   `read_scenario_dichotomy`, `stream_ok_is_faultfree` (readers), `append_ok_is_faultfree`
+E. concrete runs evaluated by the kernel, including the D18 regression (`d18_regression`) and the
+   witness against the pre-repair definition (`d18_pre_fix_witness`).
 -/
 
 namespace ZipVerif.Props.C11
-open ZipVerif ZipVerif.Model
+open ZipVerif ZipVerif.Model ZipVerif.Props.C12
 
-/-- **Writer: no call panics under any single fault, then or later.**  For every admissible call
-sequence (legal or not, including calls made after the failing one, `finish` and `drop`), every
-index `k` of the failing I/O call and every sink. -/
-theorem writer_fault_no_panic (ext : WExt) (calls : List C12.Call) (hc : ∀ c ∈ calls, c.Admissible)
-    (k : Nat) (d : Dev) (hd : C12.Dev.InRange (C12.runCalls ext calls WState.init (some k) d).2.2) :
-    ∀ o ∈ (C12.runCalls ext calls WState.init (some k) d).1, o.isPanic = false :=
-  C12.writer_no_panic ext calls hc (some k) d hd
+/-! ## A. No panic under any single fault — in the failing call or in any later one -/
+
+/-- **Writer.**  Any sequence of admissible calls — including the calls made after the first error,
+`finish`, and the implicit finalisation in `drop` — from a fresh writer, with the `k`-th I/O call of
+the whole run failing: no call's outcome is a panic (the sink's position being a `u64`). -/
+theorem writer_no_panic_under_fault (ext : WExt) (calls : List Call) (hc : ∀ c ∈ calls, c.Admissible)
+    (k : Nat) (d : Dev) (hd : Dev.InRange (runCalls ext calls WState.init (some k) d).2.2) :
+    ∀ o ∈ (runCalls ext calls WState.init (some k) d).1, o.isPanic = false :=
+  writer_no_panic ext calls hc (some k) d hd
+
+/-- The same from any writer state satisfying the invariant `Inv` of C12 (every state a call
+sequence can reach, and every state `new_append` returns — `append_establishes_inv`). -/
+theorem writer_no_panic_under_fault_from (ext : WExt) (calls : List Call)
+    (hc : ∀ c ∈ calls, c.Admissible) (s : WState) (hI : Inv s) (fa : Option Nat) (d : Dev)
+    (hd : Dev.InRange (runCalls ext calls s fa d).2.2) :
+    ∀ o ∈ (runCalls ext calls s fa d).1, o.isPanic = false := by
+  intro o ho
+  cases hp : o.isPanic
+  · rfl
+  · have := (run_inv ext calls hc s hI fa d).2 ⟨o, ho, hp⟩
+    unfold Huge at this
+    unfold Dev.InRange at hd
+    omega
+
+/-- `ZipWriter::new_append` — for every input and every fault index — never panics, leaves the bytes
+alone, and when it succeeds the writer it returns satisfies the invariant. -/
+theorem append_establishes_inv (fa : Option Nat) (d : Dev) :
+    ¬ (newAppend fa d).1.isPanic = true ∧ (newAppend fa d).2.buf = d.buf ∧
+    ∀ s d', newAppend fa d = (.ok s, d') → Inv s :=
+  ⟨(C05.append_open_total fa d).1, (C05.append_open_total fa d).2, fun _ _ h => newAppend_inv.elim h⟩
+
+/-- **Append scenarios**: open an existing archive for appending, then any admissible calls, one fault
+anywhere in the whole scenario (in `new_append` or in any later call): no panic. -/
+theorem append_no_panic_under_fault (ext : WExt) (calls : List Call) (hc : ∀ c ∈ calls, c.Admissible)
+    (fa : Option Nat) (d0 d : Dev) (s : WState) (h : newAppend fa d0 = (.ok s, d))
+    (hd : Dev.InRange (runCalls ext calls s fa d).2.2) :
+    ¬ (newAppend fa d0).1.isPanic = true ∧ ∀ o ∈ (runCalls ext calls s fa d).1, o.isPanic = false :=
+  ⟨(C05.append_open_total fa d0).1,
+   writer_no_panic_under_fault_from ext calls hc s (newAppend_inv.elim h) fa d hd⟩
+
+/-- **Reader.**  Any script of `open / by_index(_decrypt) / by_index_raw / by_name(_decrypt) / stream
+visit / new_append` calls on any bytes, the `k`-th I/O call failing: no step panics, neither the call
+nor the read of the returned entry — in particular not the calls made after the failure. -/
+theorem reader_no_panic_under_fault (ext : Ext) (hext : ExtNoPanic ext) (k : Nat)
+    (script : List C05.Step) (s : C05.State) (hd : DevSane s.dev) :
+    C05.runScript ext (some k) s script = false :=
+  C05.reader_total ext hext (some k) script s hd
+
+/-! ## B. Fault transparency: a fault that is not reached changes nothing -/
+
+/-- The call counter never runs backwards (every writer call, every fault index). -/
+theorem writer_call_counter_mono (ext : WExt) (c : Call) (s : WState) (fa : Option Nat) (d : Dev) :
+    d.calls ≤ (step ext c s fa d).2.calls :=
+  (step_uniform ext c s).mono fa d
+
+/-- **One writer call (any call, `drop` included)**: if the fault index lies outside the window of
+I/O calls the *failure-free* call makes, the call's result, the writer state and the sink are those of
+the failure-free call. -/
+theorem writer_call_unreached_fault (ext : WExt) (c : Call) (s : WState) (k : Nat) (d : Dev)
+    (h : k < d.calls ∨ (step ext c s none d).2.calls ≤ k) :
+    step ext c s (some k) d = step ext c s none d :=
+  (step_uniform ext c s).same_of_outside h
+
+/-- The same with the window of the *faulted* call: a fault that did not fire during the call. -/
+theorem writer_call_not_fired (ext : WExt) (c : Call) (s : WState) (k : Nat) (d : Dev)
+    (h : ¬ Fired k d (step ext c s (some k) d).2) :
+    step ext c s (some k) d = step ext c s none d :=
+  (step_uniform ext c s).same_of_not_fired h
+
+/-- **A whole call sequence**: a fault index beyond (or before) the I/O calls of the failure-free run
+changes nothing — outcomes, final writer state, final sink. -/
+theorem writer_run_unreached_fault (ext : WExt) (calls : List Call) (s : WState) (k : Nat) (d : Dev)
+    (h : k < d.calls ∨ (runCalls ext calls s none d).2.2.calls ≤ k) :
+    runCalls ext calls s (some k) d = runCalls ext calls s none d :=
+  run_unreached ext calls k s d h
+
+/-- **Reader entry points and `new_append`**: counter monotone, and an unreached fault is invisible. -/
+theorem reader_unreached_fault (ext : Ext) (a : Archive) (i : Nat) (name : Bytes) (pw : Option Bytes)
+    (k : Nat) (d : Dev) :
+    ((k < d.calls ∨ (openArchive none d).2.calls ≤ k) → openArchive (some k) d = openArchive none d) ∧
+    ((k < d.calls ∨ (byIndexRead ext a i pw none d).2.calls ≤ k) →
+      byIndexRead ext a i pw (some k) d = byIndexRead ext a i pw none d) ∧
+    ((k < d.calls ∨ (byNameRead ext a name pw none d).2.calls ≤ k) →
+      byNameRead ext a name pw (some k) d = byNameRead ext a name pw none d) ∧
+    ((k < d.calls ∨ (byIndexRaw a i none d).2.calls ≤ k) →
+      byIndexRaw a i (some k) d = byIndexRaw a i none d) ∧
+    ((k < d.calls ∨ (newAppend none d).2.calls ≤ k) → newAppend (some k) d = newAppend none d) ∧
+    ((k < d.calls ∨ (streamVisit ext none d).2.calls ≤ k) →
+      streamVisit ext (some k) d = streamVisit ext none d) :=
+  ⟨openArchive_uniform.same_of_outside, (byIndexRead_tight ext a i pw).uni.same_of_outside,
+   (byNameRead_tight ext a name pw).uni.same_of_outside, (byIndexRaw_tight a i).uni.same_of_outside,
+   newAppend_uniform.same_of_outside, (streamVisit_tight ext).uni.same_of_outside⟩
+
+theorem reader_call_counter_mono (ext : Ext) (a : Archive) (i : Nat) (pw : Option Bytes)
+    (fa : Option Nat) (d : Dev) :
+    d.calls ≤ (openArchive fa d).2.calls ∧ d.calls ≤ (byIndexRead ext a i pw fa d).2.calls ∧
+    d.calls ≤ (byIndexRaw a i fa d).2.calls ∧ d.calls ≤ (newAppend fa d).2.calls ∧
+    d.calls ≤ (streamVisit ext fa d).2.calls :=
+  ⟨openArchive_uniform.mono fa d, (byIndexRead_tight ext a i pw).uni.mono fa d,
+   (byIndexRaw_tight a i).uni.mono fa d, newAppend_uniform.mono fa d,
+   (streamVisit_tight ext).uni.mono fa d⟩
+
+/-! ## C. A fault that fires inside a call is that call's error -/
+
+/-- **Writer, every call other than `drop`**: if the injected failure happens during the call (its
+index lies in the window of I/O calls the call performs), the call does not return `Ok`. -/
+theorem fired_fault_is_error (ext : WExt) (c : Call) (hc : isDrop c = false) (s : WState) (k : Nat)
+    (d : Dev) (hf : Fired k d (step ext c s (some k) d).2) :
+    ∀ v s' d', step ext c s (some k) d ≠ (.ok (.ok v, s'), d') := by
+  intro v s' d' h
+  rw [h] at hf
+  exact (step_stepOK ext c hc s).ep k d v s' d' h hf
+
+/-- … and, the call being admissible and the writer in an `Inv` state, it returns `Err` (with the
+writer in an `Inv` state again) — the only alternative, a panic, needs a sink position beyond `u64`. -/
+theorem fired_fault_returns_err (ext : WExt) (c : Call) (hc : isDrop c = false) (ha : c.Admissible)
+    (s : WState) (hI : Inv s) (k : Nat) (d : Dev) (hf : Fired k d (step ext c s (some k) d).2) :
+    (∃ e s' d', step ext c s (some k) d = (.ok (.error e, s'), d') ∧ Inv s') ∨
+    Huge (step ext c s (some k) d).2 := by
+  have hs := inv_step ext c ha s hI (some k) d
+  have hn := fired_fault_is_error ext c hc s k d hf
+  unfold Sat at hs
+  rcases h : step ext c s (some k) d with ⟨(⟨(e | v), s'⟩ | e | p), d'⟩ <;> rw [h] at hs <;>
+    dsimp only at hs
+  · exact Or.inl ⟨e, s', d', rfl, hs⟩
+  · exact absurd h (hn v s' d')
+  · exact Or.inr hs
+
+/-- **`Drop` swallows errors by design** (Rust's `Drop` cannot return one).  Two failures are ignored
+inside it: the result of the implicit `finalize` (the crate prints it to stderr and goes on), and — when
+`finalize` failed before closing the current entry, so that a Deflate/Bzip2 encoder is still alive — the
+result of the final write that encoder issues from its own destructor (`dropInner`).  Under any fault,
+dropping a writer returns normally, the (unobservable) writer stays in an `Inv` state, and it cannot
+panic on a sink whose position is a `u64`.  What the fault leaves behind is a sink holding a partial
+archive (`drop_leaves_partial_archive` below); nothing else is observable from the dropped writer. -/
+theorem drop_under_fault (ext : WExt) (s : WState) (hI : Inv s) (fa : Option Nat) (d : Dev) :
+    Sat (dropWriter ext s) fa d (fun rs _ => rs.1 = .ok () ∧ Inv rs.2) := by
+  unfold dropWriter
+  split
+  · exact Sat.pure ⟨rfl, hI⟩
+  · apply Sat.bind
+    apply Sat.mono (finalize_sat ext s hI fa d)
+    intro ⟨r, s1⟩ d1 ⟨hI1, _⟩
+    exact Sat.mono (dropInner_sat' ext s1 hI1 fa d1) (fun _ _ h => ⟨h.2, h.1⟩)
+
+/-- The second ignored failure, made explicit: when the write issued by a live encoder's destructor is
+the failing call, `Drop` still completes, the writer ends closed, and the encoder's pending output is
+lost (the sink's bytes are untouched by that call). -/
+theorem drop_destructor_write_ignored (ext : WExt) (s : WState) (m : Method) (l : Int) (pending : Bytes)
+    (hin : s.inner = .compressor m l none pending) (hm : (m == .deflated || m == .bzip2) = true)
+    (hne : ext.compress m l pending ≠ []) (d : Dev) :
+    dropInner ext s (some d.calls) d = (.ok (.ok (), { s with inner := .closed }), d.tick) ∧
+    (dropInner ext s (some d.calls) d).2.buf = d.buf := by
+  have h : dropInner ext s (some d.calls) d = (.ok (.ok (), { s with inner := .closed }), d.tick) := by
+    unfold dropInner
+    rw [hin]
+    dsimp only
+    rw [if_pos hm, M.bind_apply, M.attempt_apply, M.writeAll_run _ hne, if_pos rfl]
+    rfl
+  exact ⟨h, by rw [h]; rfl⟩
+
+/-- **Reading an entry** (`by_index` / `by_index_decrypt` / `by_name` / `by_index_raw` + read to end):
+no failure is tolerated anywhere — a fault that fires is returned as that very error. -/
+theorem read_fired_fault_is_error (ext : Ext) (a : Archive) (i : Nat) (name : Bytes)
+    (pw : Option Bytes) (k : Nat) (d : Dev) :
+    (Fired k d (byIndexRead ext a i pw (some k) d).2 →
+      (byIndexRead ext a i pw (some k) d).1 = .err (.io .injected)) ∧
+    (Fired k d (byNameRead ext a name pw (some k) d).2 →
+      (byNameRead ext a name pw (some k) d).1 = .err (.io .injected)) ∧
+    (Fired k d (byIndexRaw a i (some k) d).2 → (byIndexRaw a i (some k) d).1 = .err (.io .injected)) :=
+  ⟨(byIndexRead_tight ext a i pw).clean k d, (byNameRead_tight ext a name pw).clean k d,
+   (byIndexRaw_tight a i).clean k d⟩
+
+/-- **The streaming reader** (`ZipStreamReader::visit`, every entry read to its end; also under any
+pattern of partial reads followed by drop): a fault that fires is returned as that very error. -/
+theorem stream_fired_fault_is_error (ext : Ext) (k : Nat) (d : Dev)
+    (hf : Fired k d (streamVisit ext (some k) d).2) :
+    (streamVisit ext (some k) d).1 = .err (.io .injected) :=
+  (streamVisit_tight ext).clean k d hf
+
+theorem stream_entries_fired_fault_is_error (ext : Ext) (pattern : List Nat) (fuel i : Nat) (k : Nat)
+    (d : Dev) (hf : Fired k d (streamEntriesC ext pattern fuel i (some k) d).2) :
+    (streamEntriesC ext pattern fuel i (some k) d).1 = .err (.io .injected) :=
+  (streamEntriesC_tight ext pattern fuel i).clean k d hf
+
+/-- **`ZipArchive::new`**: a fault that fires — at ANY I/O call — is reported as an error (the injected
+one; `InvalidArchive` when it hit the seek to the central directory, which the crate maps to that). -/
+theorem open_fired_fault_is_error (k : Nat) (d : Dev) (hf : Fired k d (openArchive (some k) d).2) :
+    ∃ e, (openArchive (some k) d).1 = .err e :=
+  openArchive_errOnFire k d hf
+
+/-- `get_directory_counts` (the ZIP64 probe, the locator parse, the ZIP64 end-record search): a fired
+fault is returned as that very error. -/
+theorem counts_fired_fault_is_error (footer : Eocd) (cde : Nat) (k : Nat) (d : Dev)
+    (hf : Fired k d (getDirectoryCounts footer cde (some k) d).2) :
+    (getDirectoryCounts footer cde (some k) d).1 = .err (.io .injected) :=
+  (getDirectoryCounts_tight footer cde).clean k d hf
+
+/-- **D18, repaired**: the injected fault on the probe seek (the first I/O call of
+`get_directory_counts`) is returned; nothing else is attempted. -/
+theorem probe_injected_fault_reported (footer : Eocd) (cde : Nat) (d : Dev) :
+    getDirectoryCounts footer cde (some d.calls) d = (.err (.io .injected), d.shift 1) :=
+  Model.probe_injected_fault_reported footer cde d
+
+/-- **`probe_negative_seek_tolerated`**: the seek failure that is still tolerated is exactly the seek
+to a negative position — the file is shorter than locator (20) + end record (22) + comment bytes, the
+seek is refused with `InvalidInput`, there is no locator to look at, and `get_directory_counts`
+answers from the 22-byte end record (`countsNoZip64`) after that one call … -/
+theorem probe_negative_seek_tolerated (footer : Eocd) (cde : Nat) (fa : Option Nat) (d : Dev)
+    (hfa : fa ≠ some d.calls) (hshort : d.buf.length < 42 + footer.comment.length) :
+    getDirectoryCounts footer cde fa d = (countsNoZip64 footer cde, d.shift 1) :=
+  Model.probe_negative_seek_tolerated footer cde fa d hfa hshort
+
+/-- … and every other error of the probe seek is returned unchanged.  (`probe_seek_apply`: on a `Dev`
+the seek's outcomes are the injected fault, `InvalidInput` iff the file is that short, else success.) -/
+theorem probe_other_seek_error_reported (footer : Eocd) (cde : Nat) (fa : Option Nat) (d d' : Dev)
+    (e : ZErr) (hs : M.seek (probePos footer) fa d = (.err e, d')) (he : e ≠ .io .invalidInput) :
+    getDirectoryCounts footer cde fa d = (.err e, d') :=
+  Model.probe_other_seek_error_reported footer cde fa d d' e hs he
+
+/-- **`new_append`**: a fault that fires before its last seek is reported as an error. -/
+theorem append_fired_fault_is_error (k : Nat) (d : Dev)
+    (hf : Fired k d (newAppendCore (some k) d).2) : ∃ e, (newAppend (some k) d).1 = .err e := by
+  obtain ⟨e, he⟩ := newAppendCore_errOnFire k d hf
+  rw [newAppend_eq]
+  exact ⟨e, bind_err_of _ he⟩
+
+/-- **The ignored seek of `new_append`** (`let _ = reader.seek(Start(directory_start))`).  The
+failure-free call leaves the sink at the directory start `ds`; when exactly that seek fails the call
+still returns `Ok` with the *same* writer state, and the sink stays where parsing the central
+directory ended (`d1.pos`: behind the old directory, i.e. at the end record).  Entries added afterwards
+are then written behind the old central directory, which remains in the file as dead bytes. -/
+theorem append_ignored_seek {d d1 : Dev} {s : WState} {ds : Nat}
+    (h : newAppendCore none d = (.ok (s, ds), d1)) :
+    newAppend none d = (.ok s, { d1.shift 1 with pos := ds }) ∧
+    newAppend (some d1.calls) d = (.ok s, d1.shift 1) :=
+  newAppend_ignored_seek h
+
+/-! ## D. Headline: `Ok` everywhere ⇒ identical to the failure-free run -/
+
+/-- **`all_ok_is_faultfree`.**  For every call sequence not containing `drop`, from every writer
+state, on every sink, for every fault index `k`: if every call returned `Ok`, the run is *equal* to the
+failure-free run — the same return values, the same final writer state and the same final sink (bytes,
+position, and even the number of I/O calls made). -/
+theorem all_ok_is_faultfree (ext : WExt) (calls : List Call) (hnd : ∀ c ∈ calls, isDrop c = false)
+    (s : WState) (k : Nat) (d : Dev)
+    (hok : ∀ o ∈ (runCalls ext calls s (some k) d).1, o.isOk = true) :
+    runCalls ext calls s (some k) d = runCalls ext calls s none d := by
+  rcases run_fault_dichotomy ext calls hnd k s d with h | h
+  · exact h
+  · obtain ⟨o, ho, hn⟩ := h.not_allOk
+    rw [hok o ho] at hn
+    cases hn
+
+/-- In particular the bytes in the sink are those of the failure-free run. -/
+theorem all_ok_same_bytes (ext : WExt) (calls : List Call) (hnd : ∀ c ∈ calls, isDrop c = false)
+    (s : WState) (k : Nat) (d : Dev)
+    (hok : ∀ o ∈ (runCalls ext calls s (some k) d).1, o.isOk = true) :
+    (runCalls ext calls s (some k) d).2.2.buf = (runCalls ext calls s none d).2.2.buf := by
+  rw [all_ok_is_faultfree ext calls hnd s k d hok]
+
+/-- **`fault_outcome_dichotomy` (writer).**  Admissible calls without `drop`, from an `Inv` state (a
+fresh writer, or one returned by `new_append`), one fault at any index `k`: either the whole run is
+identical to the failure-free run, or there is a call `i` such that all calls before it returned
+exactly what they return in the failure-free run and call `i` returned an error. -/
+theorem fault_outcome_dichotomy (ext : WExt) (calls : List Call) (hc : ∀ c ∈ calls, c.Admissible)
+    (hnd : ∀ c ∈ calls, isDrop c = false) (s : WState) (hI : Inv s) (k : Nat) (d : Dev)
+    (hd : Dev.InRange (runCalls ext calls s (some k) d).2.2) :
+    runCalls ext calls s (some k) d = runCalls ext calls s none d ∨
+    ∃ i e, (runCalls ext calls s (some k) d).1.take i = (runCalls ext calls s none d).1.take i ∧
+      (runCalls ext calls s (some k) d).1[i]? = some (.err e) := by
+  rcases run_fault_dichotomy ext calls hnd k s d with h | h
+  · exact Or.inl h
+  · obtain ⟨i, o, h1, h2, h3⟩ := h.index
+    have hmem : o ∈ (runCalls ext calls s (some k) d).1 := List.mem_of_getElem? h2
+    have hnp := writer_no_panic_under_fault_from ext calls hc s hI (some k) d hd o hmem
+    cases o with
+    | ok v => cases h3
+    | err e => exact Or.inr ⟨i, e, h1, h2⟩
+    | panic p => cases hnp
+
+/-- **`ZipArchive::new`**: `Ok` under a fault — at any index — is the failure-free result, device
+included. -/
+theorem open_ok_is_faultfree {k : Nat} {d d' : Dev} {a : Archive}
+    (h : openArchive (some k) d = (.ok a, d')) : openArchive none d = (.ok a, d') :=
+  openArchive_ok_faultfree h
+
+/-- **Streaming reader**: `Ok` under a fault is the failure-free result (every entry, every metadata
+record, the device). -/
+theorem stream_ok_is_faultfree (ext : Ext) {k : Nat} {d d' : Dev}
+    {r : List (FileData × Out Bytes) × List FileData}
+    (h : streamVisit ext (some k) d = (.ok r, d')) : streamVisit ext none d = (.ok r, d') :=
+  (streamVisit_tight ext).ok_faultfree h
+
+/-- **Entry reads**: a call that returns `Ok` under a fault returns exactly the failure-free result
+(the same `read_to_end` outcome, the same device). -/
+theorem read_ok_is_faultfree (ext : Ext) (a : Archive) (i : Nat) (name : Bytes) (pw : Option Bytes)
+    (k : Nat) (d d' : Dev) :
+    (∀ r, byIndexRead ext a i pw (some k) d = (.ok r, d') → byIndexRead ext a i pw none d = (.ok r, d')) ∧
+    (∀ r, byNameRead ext a name pw (some k) d = (.ok r, d') →
+      byNameRead ext a name pw none d = (.ok r, d')) ∧
+    (∀ r, byIndexRaw a i (some k) d = (.ok r, d') → byIndexRaw a i none d = (.ok r, d')) :=
+  ⟨fun _ h => (byIndexRead_tight ext a i pw).ok_faultfree h,
+   fun _ h => (byNameRead_tight ext a name pw).ok_faultfree h,
+   fun _ h => (byIndexRaw_tight a i).ok_faultfree h⟩
+
+/-- **`read_scenario_dichotomy`**: open an archive and read every entry, one fault at ANY I/O call
+index — either everything (archive value, every entry's content or error, final device) is identical
+to the failure-free run, or `new` reports an error, or one of the entry reads reports the injected
+error. -/
+theorem read_scenario_dichotomy (ext : Ext) (pw : Option Bytes) (k : Nat) (d : Dev) :
+    openAndReadAll ext pw (some k) d = openAndReadAll ext pw none d ∨
+    (∃ e, (openAndReadAll ext pw (some k) d).1 = .err e) ∨
+    .err (.io .injected) ∈ (openAndReadAll ext pw (some k) d).2.1 :=
+  openAndReadAll_dichotomy ext pw k d
+
+/-- **`new_append`**: `Ok` under a fault carries the failure-free writer state; the sink is the
+failure-free one too, unless the fault hit the last, ignored seek — then only its position differs
+(`append_ignored_seek`). -/
+theorem append_ok_is_faultfree {k : Nat} {d d' : Dev} {s : WState}
+    (h : newAppend (some k) d = (.ok s, d')) :
+    ∃ ds d1, newAppendCore none d = (.ok (s, ds), d1) ∧
+      newAppend none d = (.ok s, { d1.shift 1 with pos := ds }) ∧
+      (d' = { d1.shift 1 with pos := ds } ∨ (k = d1.calls ∧ d' = d1.shift 1)) :=
+  newAppend_ok_faultfree h
+
+
+/-! ## E. Non-vacuity: concrete runs, evaluated by the kernel -/
+
+/-- `start_file("a")`, `write([1,2,3])`, `finish()` on an empty sink: 49 I/O calls when nothing fails. -/
+def script : List Call := [.startFile [0x61] (opts .stored none), .write [1, 2, 3], .finish]
+
+def run (fa : Option Nat) := runCalls ext0 script WState.init fa (Dev.ofBytes [])
+
+example : ∀ c ∈ script, c.Admissible ∧ isDrop c = false := by decide
+example : (run none).2.2.calls = 49 ∧ (run none).1.map cls = [.ok, .ok, .ok] := by decide +kernel
+
+/-- A fault on a header write (I/O call 1 is the second chunk of the local header) makes `start_file`
+return `Err`; the later `write` is refused, the later `finish` succeeds — no panic, an error reported. -/
+example : (run (some 1)).1.map cls = [.err, .err, .ok] := by decide +kernel
+/-- A fault on the data write makes `write` return `Err`. -/
+example : (run (some 14)).1.map cls = [.ok, .err, .ok] := by decide +kernel
+/-- A fault anywhere in `finish` (calls 15 … 48) makes `finish` return `Err`. -/
+example : (List.range 34).all (fun j => (run (some (15 + j))).1.map cls == [.ok, .ok, .err]) = true := by
+  decide +kernel
+/-- `fired_fault_is_error` is not vacuous: in the run with fault 20 the fault fires inside `finish`
+(the hypothesis `Fired` holds for the writer state and sink reached after the first two calls). -/
+example :
+    let r := runCalls ext0 (script.take 2) WState.init (some 20) (Dev.ofBytes [])
+    Fired 20 r.2.2 (step ext0 .finish r.2.1 (some 20) r.2.2).2 := by
+  decide +kernel
+/-- Exhaustively for this script: for EVERY fault index some call reports an error, or outcomes and
+final bytes are those of the failure-free run (indices ≥ 49 are `writer_run_unreached_fault`). -/
+example : (List.range 49).all (fun k => (run (some k)).1.any (fun o => cls o == .err)) = true := by
+  decide +kernel
+/-- A fault index beyond the run changes nothing (instance of `writer_run_unreached_fault`) … -/
+example : run (some 49) = run none := by
+  have h : (runCalls ext0 script WState.init none (Dev.ofBytes [])).2.2.calls ≤ 49 := by decide +kernel
+  unfold run
+  exact writer_run_unreached_fault ext0 script WState.init 49 (Dev.ofBytes []) (Or.inr h)
+/-- … and `all_ok_is_faultfree` applies to it: its hypothesis holds. -/
+example : (run (some 60)).2.2.buf = (run none).2.2.buf := by
+  have hnd : ∀ c ∈ script, isDrop c = false := by decide
+  have hok : ∀ o ∈ (runCalls ext0 script WState.init (some 60) (Dev.ofBytes [])).1, o.isOk = true := by
+    decide +kernel
+  unfold run
+  exact all_ok_same_bytes ext0 script hnd WState.init 60 (Dev.ofBytes []) hok
+/-- No panic in any of the faulted runs (instance of `writer_no_panic_under_fault`). -/
+example : ∀ o ∈ (run (some 20)).1, o.isPanic = false := by
+  have ha : ∀ c ∈ script, c.Admissible := by decide
+  have hd : Dev.InRange (runCalls ext0 script WState.init (some 20) (Dev.ofBytes [])).2.2 := by
+    unfold Dev.InRange; decide +kernel
+  unfold run
+  exact writer_no_panic_under_fault ext0 script ha 20 (Dev.ofBytes []) hd
+
+/-- `fault_outcome_dichotomy` instantiated (fault 20, inside `finish`): all its hypotheses hold. -/
+example : run (some 20) = run none ∨
+    ∃ i e, (run (some 20)).1.take i = (run none).1.take i ∧ (run (some 20)).1[i]? = some (.err e) := by
+  have ha : ∀ c ∈ script, c.Admissible := by decide
+  have hnd : ∀ c ∈ script, isDrop c = false := by decide
+  have hd : Dev.InRange (runCalls ext0 script WState.init (some 20) (Dev.ofBytes [])).2.2 := by
+    unfold Dev.InRange; decide +kernel
+  unfold run
+  exact fault_outcome_dichotomy ext0 script ha hnd WState.init Model.inv_init 20 (Dev.ofBytes []) hd
+
+/-- `drop` instead of `finish`: the fault (I/O call 20, inside the implicit finalisation) is
+swallowed — every call returns `Ok` — and the sink holds a partial archive: its bytes differ from the
+failure-free run's.  This is why `all_ok_is_faultfree` excludes `drop`. -/
+theorem drop_leaves_partial_archive :
+    let calls : List Call := [.startFile [0x61] (opts .stored none), .write [1, 2, 3], .drop]
+    (runCalls ext0 calls WState.init (some 20) (Dev.ofBytes [])).1.map cls = [.ok, .ok, .ok] ∧
+    (runCalls ext0 calls WState.init (some 20) (Dev.ofBytes [])).2.2.buf ≠
+      (runCalls ext0 calls WState.init none (Dev.ofBytes [])).2.2.buf := by
+  decide +kernel
+
+/-! ### Reader -/
+
+def isInjected {α} : Out α → Bool
+  | .err (.io .injected) => true
+  | _ => false
+
+/-- A one-entry archive without ZIP64 records (`C05.oneEntry`, 101 bytes): 35 I/O calls; EVERY fault
+index below 35 is an error (index 13, the ZIP64 probe seek, included — D18). -/
+example : (openArchive none (Dev.ofBytes C05.oneEntry)).2.calls = 35 ∧
+    C05.okEntries (openArchive none (Dev.ofBytes C05.oneEntry)).1 = some 1 := by decide +kernel
+example : (List.range 35).all (fun k =>
+    C05.isErr (openArchive (some k) (Dev.ofBytes C05.oneEntry)).1) = true := by decide +kernel
+example : isInjected (openArchive (some 13) (Dev.ofBytes C05.oneEntry)).1 = true := by decide +kernel
+
+/-- `read_scenario_dichotomy` instantiated at the former exception, fault index 13. -/
+example :
+    openAndReadAll storedExt none (some 13) (Dev.ofBytes C05.oneEntry) =
+      openAndReadAll storedExt none none (Dev.ofBytes C05.oneEntry) ∨
+    (∃ e, (openAndReadAll storedExt none (some 13) (Dev.ofBytes C05.oneEntry)).1 = .err e) ∨
+    .err (.io .injected) ∈ (openAndReadAll storedExt none (some 13) (Dev.ofBytes C05.oneEntry)).2.1 :=
+  read_scenario_dichotomy storedExt none 13 (Dev.ofBytes C05.oneEntry)
+
+/-- `probe_negative_seek_tolerated` is not vacuous: the empty archive (22 bytes) is shorter than
+42 bytes; its probe seek is refused and the archive opens with zero entries. -/
+example : C05.emptyZip.length < 42 ∧
+    C05.okEntries (openArchive none (Dev.ofBytes C05.emptyZip)).1 = some 0 := by decide +kernel
+
+/-- `new_append` on `C05.oneEntry` (`append_ignored_seek`): 36 I/O calls; the failure-free call
+leaves the sink at the directory start 32; with its last seek (call 35) failing it still returns `Ok`,
+the same entry list, and the sink stays at 79 — the position of the end record. -/
+example :
+    (match newAppend none (Dev.ofBytes C05.oneEntry), newAppend (some 35) (Dev.ofBytes C05.oneEntry) with
+    | (.ok s, d), (.ok s', d') =>
+      d.pos == 32 && d'.pos == 79 && d.calls == 36 && d'.calls == 36 &&
+      s.files.map (·.fileName) == s'.files.map (·.fileName) && s.files.length == 1
+    | _, _ => false) = true := by decide +kernel
+/-- … and every earlier fault index makes `new_append` fail. -/
+example : (List.range 35).all (fun k =>
+    C05.isErr (newAppend (some k) (Dev.ofBytes C05.oneEntry)).1) = true := by decide +kernel
+
+/-- The streaming reader on the same bytes: every fault index inside the run is the injected error. -/
+example : (List.range (streamVisit storedExt none (Dev.ofBytes C05.oneEntry)).2.calls).all (fun k =>
+    isInjected (streamVisit storedExt (some k) (Dev.ofBytes C05.oneEntry)).1) = true := by decide +kernel
+
+/-! ### D18: the swallowed probe-seek failure (found by this development, repaired in the crate) -/
+
+/-- A 145-byte ZIP64 archive: one central header (`"a"`), a ZIP64 end record (1 entry, directory of 47
+bytes at offset 0), its locator, and a 22-byte end record whose 16/32-bit fields are all zero. -/
+def zip64Zero : Bytes :=
+  [0x50,0x4b,0x01,0x02, 0x14,0x00, 0x14,0x00, 0,0, 0,0, 0,0, 0x21,0x00, 0,0,0,0, 0,0,0,0, 0,0,0,0,
+   1,0, 0,0, 0,0, 0,0, 0,0, 0,0,0,0, 0,0,0,0, 0x61] ++
+  [0x50,0x4b,0x06,0x06, 44,0,0,0,0,0,0,0, 45,0, 45,0, 0,0,0,0, 0,0,0,0, 1,0,0,0,0,0,0,0,
+   1,0,0,0,0,0,0,0, 47,0,0,0,0,0,0,0, 0,0,0,0,0,0,0,0] ++
+  [0x50,0x4b,0x06,0x07, 0,0,0,0, 47,0,0,0,0,0,0,0, 1,0,0,0] ++
+  [0x50,0x4b,0x05,0x06, 0,0, 0,0, 0,0, 0,0, 0,0,0,0, 0,0,0,0, 0,0]
+
+/-- **Regression (`d18_regression`).**  On `zip64Zero` the failure-free `ZipArchive::new` succeeds with
+one entry in 49 I/O calls; with the probe seek (I/O call 13) failing it now returns the injected error,
+and so does every other fault index inside the run except the seek to the directory (`InvalidArchive`):
+no index yields a success. -/
+theorem d18_regression :
+    C05.okEntries (openArchive none (Dev.ofBytes zip64Zero)).1 = some 1 ∧
+    (openArchive none (Dev.ofBytes zip64Zero)).2.calls = 49 ∧
+    isInjected (openArchive (some 13) (Dev.ofBytes zip64Zero)).1 = true ∧
+    (List.range 49).all (fun k => C05.isErr (openArchive (some k) (Dev.ofBytes zip64Zero)).1) = true := by
+  decide +kernel
+
+open M in
+/-- `get_directory_counts` as it was before the D18 repair: ANY failure of the probe seek was taken for
+"no ZIP64 locator" (`.error _ => pure none`).  Local copy, used only by `d18_pre_fix_witness`. -/
+def getDirectoryCountsPreD18 (footer : Eocd) (cdeStart : Nat) : M (Nat × Nat × Nat) := do
+  let sk ← attempt (seek (.endOff (-(20 + 22 + (footer.comment.length : Int)))))
+  let loc : Option Locator ← match sk with
+    | .ok _ => do
+      let r ← attempt parseLocator
+      match r with
+      | .ok l => pure (some l)
+      | .error .invalidArchive => pure none
+      | .error e => throw e
+    | .error _ => pure none
+  match loc with
+  | none =>
+    let sz := footer.cdSize.toNat
+    let off := footer.cdOffset.toNat
+    if cdeStart < sz + off then throw .invalidArchive else
+    let archiveOffset := cdeStart - sz - off
+    pure (archiveOffset, off + archiveOffset, footer.filesOnDisk.toNat)
+  | some l =>
+    if !footer.recordTooSmall && footer.diskNumber.toUInt32 != l.diskWithCd then
+      throw .unsupportedArchive
+    else if cdeStart < 60 then throw .invalidArchive else do
+      let (f64, archiveOffset) ← findEocd64 l.eocd64Offset.toNat (cdeStart - 60)
+      if f64.diskNumber != f64.diskWithCd then throw .unsupportedArchive else
+      let ds := f64.cdOffset.toNat + archiveOffset
+      if ds ≥ 18446744073709551616 then throw .invalidArchive else
+      pure (archiveOffset, ds, f64.files.toNat)
+
+open M in
+/-- `ZipArchive::new` over the pre-repair `get_directory_counts`. -/
+def openArchivePreD18 : M Archive := do
+  let (footer, cdeStart) ← findAndParseEocd
+  if !footer.recordTooSmall && footer.diskNumber != footer.diskWithCd then
+    throw .unsupportedArchive
+  else do
+    let (archiveOffset, directoryStart, numberOfFiles) ← getDirectoryCountsPreD18 footer cdeStart
+    let r ← attempt (seek (.start directoryStart))
+    match r with
+    | .error _ => throw .invalidArchive
+    | .ok _ =>
+      let files ← readCentralLoop archiveOffset numberOfFiles
+      pure { files, offset := archiveOffset, comment := footer.comment }
+
+/-- **The finding (`d18_pre_fix_witness`), against the pre-repair definition**: with the probe seek
+(I/O call 13) failing, `ZipArchive::new` on `zip64Zero` returned `Ok` with ZERO entries (archive offset
+123) where the failure-free run returns ONE — the seek error was swallowed and the reader fell back to
+the 22-byte end record: a success carrying different entries, which C11 forbids.  (The same happened,
+with 65535 of ≥ 65536 entries, on archives whose end record carries the real size/offset and the
+`0xFFFF` count sentinel when the first central header is 76 bytes long.) -/
+theorem d18_pre_fix_witness :
+    C05.okEntries (openArchivePreD18 none (Dev.ofBytes zip64Zero)).1 = some 1 ∧
+    C05.okEntries (openArchivePreD18 (some 13) (Dev.ofBytes zip64Zero)).1 = some 0 := by
+  decide +kernel
+
+/-! ### Elementary facts about how the model reports a failing call (first layer of C11) -/
+
+/-- Same statement as `writer_no_panic_under_fault` under its first-layer name. -/
+theorem writer_fault_no_panic (ext : WExt) (calls : List Call) (hc : ∀ c ∈ calls, c.Admissible)
+    (k : Nat) (d : Dev) (hd : Dev.InRange (runCalls ext calls WState.init (some k) d).2.2) :
+    ∀ o ∈ (runCalls ext calls WState.init (some k) d).1, o.isPanic = false :=
+  writer_no_panic ext calls hc (some k) d hd
 
 /-- **Writer: a failing device never escapes a call as anything but that call's `Err`.** -/
-theorem writer_fault_is_call_error (ext : WExt) (c : C12.Call) (hc : c.Admissible) (s : WState)
+theorem writer_fault_is_call_error (ext : WExt) (c : Call) (hc : c.Admissible) (s : WState)
     (hI : Inv s) (k : Nat) (d : Dev) (e : ZErr) (d' : Dev) :
-    C12.step ext c s (some k) d ≠ (.err e, d') :=
+    step ext c s (some k) d ≠ (.err e, d') :=
   C12.step_total ext c hc s hI (some k) d e d'
 
-/-- **Reader: no step of any reader script panics under any single fault** (open, by_index,
-by_name, by_index_raw, streaming, new_append; reading each returned entry to its end). -/
+/-- **Reader: no step of any reader script panics under any single fault**, for a fresh input. -/
 theorem reader_fault_no_panic (ext : Ext) (hext : ExtNoPanic ext) (bytes : Bytes)
     (hlen : bytes.length < 2 ^ 63) (k : Nat) (script : List C05.Step) :
     C05.runScript ext (some k) ⟨Dev.ofBytes bytes, none⟩ script = false :=
